@@ -83,6 +83,26 @@ class FrameMachine(a64sem.Machine):
                         if op == 6: out += [X(X(gm(a[0], 2), gm(a[1], 3)), X(a[2], a[3])), X(X(a[0], gm(a[1], 2)), X(gm(a[2], 3), a[3])), X(X(a[0], a[1]), X(gm(a[2], 2), gm(a[3], 3))), X(X(gm(a[0], 3), a[1]), X(a[2], gm(a[3], 2)))]
                         else: out += [X(X(gm(a[0], 14), gm(a[1], 11)), X(gm(a[2], 13), gm(a[3], 9))), X(X(gm(a[0], 9), gm(a[1], 14)), X(gm(a[2], 11), gm(a[3], 13))), X(X(gm(a[0], 13), gm(a[1], 9)), X(gm(a[2], 14), gm(a[3], 11))), X(X(gm(a[0], 11), gm(a[1], 13)), X(gm(a[2], 9), gm(a[3], 14)))]
                 s.v[rd] = bytes_to_lanes(out); s.written_v.add(rd); s.pc += 4; dis('%s v%d.16b, v%d.16b' % ({4: 'aese', 5: 'aesd', 6: 'aesmc', 7: 'aesimc'}[op], rd, rn)); return None
+            if (w & 0xFFE0FC00) == 0x0E003C00 and ((w >> 16) & 1):       # umov Wd, Vn.B[i]
+                imm5 = (w >> 16) & 31; i = imm5 >> 1; rn = (w >> 5) & 31; rd = w & 31; lane = s.v[rn][i >> 3]
+                if lane is None: raise Fault('read of uninitialised vector register v%d' % rn)
+                sh = 8 * (i & 7); e = ((lane >> sh) & 0xff) if is_c(lane) else z3.simplify(z3.ZeroExt(56, z3.Extract(sh + 7, sh, lane)))
+                s.wx(rd, e); s.pc += 4; dis('umov w%d, v%d.b[%d]' % (rd, rn, i)); return None
+            if (w & 0xFFE0FC00) == 0xB8607800 or (w & 0xFFE0FC00) == 0xB8606800:       # ldr Wt, [Xn, Xm{, lsl #2}]
+                S_ = (w >> 12) & 1; rm_ = (w >> 16) & 31; rn = (w >> 5) & 31; rt = w & 31; off = s.rx(rm_)
+                if isinstance(off, Ptr): raise Fault('pointer used as index')
+                if S_: off = ((off << 2) & a64sem.M64) if is_c(off) else simp(bv(off, 64) << 2)
+                v = s.load(s.padd(s.rx(rn, spreg=True), off), 4); s.wx(rt, v, 32); s.pc += 4; dis('ldr w%d, [%s, x%d%s]' % (rt, s.rn_(rn, 64, True), rm_, ', lsl #2' if S_ else '')); return None
+            if (w & 0xFFFFFC00) == 0x1E270000:       # fmov Sd, Wn (upper bits of the vector register cleared)
+                rn = (w >> 5) & 31; rd = w & 31; v = s.rx(rn, 32); s.v[rd] = [v if is_c(v) else z3.simplify(z3.ZeroExt(32, bv(v, 32))), 0]; s.written_v.add(rd); s.pc += 4; dis('fmov s%d, w%d' % (rd, rn)); return None
+            if (w & 0xFFE0FC00) == 0x4E001C00 and ((w >> 16) & 7) == 4:       # ins Vd.S[i], Wn
+                i = (w >> 19) & 3; rn = (w >> 5) & 31; rd = w & 31; v = s.rx(rn, 32); old = s.v[rd][i >> 1]
+                if old is None: raise Fault('read of uninitialised vector register v%d' % rd)
+                O = bv(old, 64); V_ = bv(v, 32)
+                s.v[rd][i >> 1] = simp(z3.Concat(V_, z3.Extract(31, 0, O)) if (i & 1) else z3.Concat(z3.Extract(63, 32, O), V_)); s.written_v.add(rd); s.pc += 4; dis('mov v%d.s[%d], w%d' % (rd, i, rn)); return None
+            if (w & 0x9F000000) == 0x10000000:       # adr
+                immlo = (w >> 29) & 3; immhi = (w >> 5) & 0x7ffff; d = (immhi << 2) | immlo; d = d - (1 << 21) if d >> 20 else d
+                s.wx(w & 31, Ptr(s.code, pc0 + d)); s.pc += 4; dis('adr x%d, #%d' % (w & 31, d)); return None
             if (w & 0xFC000000) == 0x94000000:       # bl
                 imm26 = w & 0x3ffffff; d = imm26 - (1 << 26) if imm26 >> 25 else imm26; s.wx(30, Ptr(s.code, pc0 + 4)); s.pc += 4; dis('bl %#x' % (pc0 + 4 * d)); return ('jmp', pc0 + 4 * d)
             if (w & 0xFFC00000) == 0xF9800000:       # prfm [xn, #imm]
@@ -96,9 +116,9 @@ def spec_aes(enc, st2, key2):
 
 HANDLERS = None
 def run_N3(ctx, case):
-    v2 = case['v2']; light = case.get('light', False); q = Q(120); mod = Module(ctx['ll']['a64']); L = jit_layout(mod); npaths = [0]; F = life.flagvals()
+    v2 = case['v2']; light = case.get('light', False); soft = case.get('soft', False); q = Q(120); mod = Module(ctx['ll']['a64']); L = jit_layout(mod); npaths = [0]; F = life.flagvals()
     syms, text = a64_linked(ctx['tag'] + '-n3-%d' % os.getpid())
-    tag = 'A64 frame %s %s hard-AES readReg=%s' % ('light' if light else 'full', 'v2' if v2 else 'v1', [2 * i + ((case['rr'] >> i) & 1) for i in range(4)])
+    tag = 'A64 frame %s %s %s-AES readReg=%s' % ('light' if light else 'full', 'v2' if v2 else 'v1', 'soft' if soft else 'hard', [2 * i + ((case['rr'] >> i) & 1) for i in range(4)])
     rr = [2 * i + ((case['rr'] >> i) & 1) for i in range(4)]; qm = [z3.BitVec('q%d' % (14 + i), 64) for i in range(2)]
     dso32 = z3.BitVec('datasetOffset32', 32); dso = z3.ZeroExt(32, dso32) if light else z3.BitVec('datasetOffset', 64); base_pc = [z3.ULE(dso, P.DATASET_EXTRA), dso & 63 == 0]
     DSI = [z3.Function('DSI%d' % k, z3.BitVecSort(64), z3.BitVecSort(64)) for k in range(8)]; CODESZ = syms['randomx_init_dataset_aarch64_end'] - syms['randomx_program_aarch64']
@@ -113,12 +133,13 @@ def run_N3(ctx, case):
         for k, b in enumerate(text): it.mem.objs['text']['bytes'][k] = b
         it.mem.objs['text']['addr'] = 0x10000000       # nominal address of the runtime image (the emitter only ever uses differences of symbol addresses)
         it.extern = {nm: Ptr('text', off) for nm, off in syms.items()}
+        it.mem.alloc(4096, 'lut_enc'); it.mem.alloc(4096, 'lut_dec'); it.extern['randomx_aes_lut_enc'] = Ptr('lut_enc', 0); it.extern['randomx_aes_lut_dec'] = Ptr('lut_dec', 0)
         life.run_ctors(it, mod)
         def alloc_pages(s_, a):
             n = a[0] if is_c(a[0]) else z3.simplify(a[0]).as_long(); return s_.mem.alloc(n, 'codebuf')
         it.hooks['allocMemoryPages'] = alloc_pages
         J = it.mem.alloc(L['size'], 'J'); it.call('_ZN7randomx14JitCompilerA64C2Ev', [J]); code = it.mem.load(Ptr('J', L['code']), 8)
-        flags = (F['V2'] if v2 else 0) | F['HARD_AES'] | F['JIT'] | (0 if light else F['FULL_MEM']); it.mem.store(Ptr('J', L['flags']), flags, 4)
+        flags = (F['V2'] if v2 else 0) | (0 if soft else F['HARD_AES']) | F['JIT'] | (0 if light else F['FULL_MEM']); it.mem.store(Ptr('J', L['flags']), flags, 4)
         ncalls = [0]
         for f in mod.funcs:
             if re.match(r'_ZN7randomx14JitCompilerA64\d+h_\w+ERNS_11InstructionERj$', f): it.hooks[f] = (lambda s, a: ncalls.__setitem__(0, ncalls[0] + 1))
@@ -198,14 +219,25 @@ def run_N3(ctx, case):
             ra = mach.x[30]
             if not (isinstance(ra, Ptr) and ra.obj == mach.code and is_c(ra.off)): raise Fault('item function: bad return address')
             mach.pc = ra.off
+        nsoft = [0]
+        def soft_round(mach, enc):      # contract of the software-AES round routines (N4): v0 := round(v0, v1); x19/x20 must hold the table pointers; clobbers x0-x16, v28, flags
+            okp = isinstance(mach.x[19], Ptr) and mach.x[19].obj == 'lut_enc' and mach.x[19].off == 0 and isinstance(mach.x[20], Ptr) and mach.x[20].obj == 'lut_dec' and mach.x[20].off == 0
+            if not okp: raise Fault('software AES routine called without the table pointers in x19/x20')
+            mach.v[0] = spec_aes(enc, mach.v[0], mach.v[1]); nsoft[0] += 1
+            for r_ in range(0, 17): mach.x[r_] = z3.BitVec('x%d_clobbered_by_softaes_%d' % (r_, nsoft[0]), 64)
+            mach.v[28] = [z3.BitVec('v28_%d_clobbered_%d' % (l, nsoft[0]), 64) for l in range(2)]; mach.fl = dict(N=None, Z=None, C=None, V=None)
+            ra = mach.x[30]
+            if not (isinstance(ra, Ptr) and ra.obj == mach.code and is_c(ra.off)): raise Fault('software AES routine: bad return address')
+            mach.pc = ra.off
         kind = None
         try:
             m.pc = MAIN; steps = 0
             while True:
                 if m.pc == PROG and 'pre' not in st: program(m)
                 if light and m.pc == CODESZ: item_function(m); continue
+                if soft and m.pc in (syms['randomx_soft_aesenc'], syms['randomx_soft_aesdec']): soft_round(m, m.pc == syms['randomx_soft_aesenc']); continue
                 rr_ = m.step(); steps += 1
-                if steps > 600: raise Fault('step bound exceeded (unwinding assertion)')
+                if steps > 900: raise Fault('step bound exceeded (unwinding assertion)')
                 if rr_ is None:
                     pass
                 elif rr_[0] == 'ret': kind = 'ret'; retv = rr_[1]; break
@@ -290,7 +322,7 @@ def run_N3(ctx, case):
             for r_ in range(8, 16): q.prove_eq(pc, m.v[r_][0], ventry[r_][0], '%s: callee-saved d%d restored' % (tag, r_), 64)
             chk(isinstance(m.sp, Ptr) and m.sp.obj == 'stack' and m.sp.off == STK, 'stack pointer restored')
         for (kd, obj, off, nb) in m.accesses:
-            if obj == 'stack' and is_c(off): chk(STK - 208 - (96 if light else 0) <= off and off + nb <= STK, 'stack access inside the frame: %s at %d' % (kd, off))
+            if obj == 'stack' and is_c(off): chk(STK - 208 - (96 if light else 0) - (176 if soft else 0) <= off and off + nb <= STK, 'stack access inside the frame: %s at %d' % (kd, off))
             elif obj == 'dataset' and kd == 'store': chk(False, 'store into the dataset')
         extent_checks(q, pc, mem, tag)
     res, nq = explore(one, limit=16); q.n += nq
@@ -300,15 +332,15 @@ def run_N3(ctx, case):
 
 def jobs_N3(ctx):
     rrs = (0, 15) if ctx['tier'] == 'quick' else range(16)
-    return [dict(v2=v, rr=r, light=l) for l in (False, True) for v in (False, True) for r in rrs]
+    return [dict(v2=v, rr=r, light=l) for l in (False, True) for v in (False, True) for r in rrs] + [dict(v2=True, rr=r, light=l, soft=True) for l in (False, True) for r in rrs[:1]]
 
 LEMMAS = {'N3': dict(jobs=jobs_N3, run=run_N3, units=['a64'], a64=True,
     functions=['JitCompilerA64::JitCompilerA64', 'generateProgram (patch points)', 'assembled runtime: randomx_program_aarch64 prologue, main loop, dataset read/prefetch (vm_instructions_end_v1/_v2), F/E mix (v1 xor, v2 hardware AES), FE store, epilogue'],
-    doc='the frame the real generator patches around the program, executed under the A64 model: the prologue establishes 4.6.1 and the register conventions N1 assumes (masks, FPCR shadow, literal registers); one iteration from an arbitrary loop state == spec 4.6.2 (same oracle as I8/J3) for v1 and v2 with hardware AES in full and in light mode (the dataset-item function is an abstract call with the contract N5 proves); exit writes the register file, restores callee-saved registers and sp and returns; dataset accesses in bounds',
+    doc='the frame the real generator patches around the program, executed under the A64 model: the prologue establishes 4.6.1 and the register conventions N1 assumes (masks, FPCR shadow, literal registers); one iteration from an arbitrary loop state == spec 4.6.2 (same oracle as I8/J3) for v1 and v2 (hardware AES, and software AES with the round routines as abstract calls with the contract N4 proves) in full and in light mode (the dataset-item function is an abstract call with the contract N5 proves); exit writes the register file, restores callee-saved registers and sp and returns; dataset accesses in bounds',
     bound='one loop iteration from an arbitrary state + entry + exit; program body abstracted (arbitrary effect on r/f/e, scratchpad, x19, x20, v28, flags, FPCR.RMode with its shadow: what N1 allows an instruction to do); readReg choices {0,15} (quick) / all 16',
     symbolic='registers, scratchpad, dataset, ma/mx, E masks, datasetOffset, iteration counter, callee-saved registers, stack content, FPCR',
     stubs=['h_* emitters := no bytes (N1)', 'mmap := ghost heap', 'A64 semantics: engine/a64sem.py + the vector pair / AES forms in this module (AESE/AESMC/AESD/AESIMC over the FIPS-197 functions of spec/aes_ref.py)', 'ld.lld resolves the branches between the runtime\'s global labels'],
-    outside='software-AES variant of the v2 F/E mix')}
+    outside='-')}
 UNITS = UNITS
 
 # ------------------------------------------------------------------------------------------------ N6: randomx_init_dataset_aarch64 (the loop around the item function)
@@ -378,3 +410,51 @@ def run_N6(ctx, case):
 LEMMAS['N6'] = dict(jobs=lambda ctx: ['init_dataset'], run=run_N6, units=['a64'], a64=True, functions=['assembled runtime: randomx_init_dataset_aarch64'],
     doc='the dataset initialiser of the ARM64 runtime: one call of the item function per item of [startItem, endItem) with the right item number, cache pointer and output address; exactly the requested 64*count bytes written; x20, x30 and sp restored',
     bound='1 to 3 items (loop body identical for every item), symbolic start and dataset address', symbolic='startItem, itemCount, dataset offset, entry registers, stack content', stubs=['item function := abstract call with the contract N5 proves'])
+
+
+# ------------------------------------------------------------------------------------------------ N4: the software-AES round routines of the runtime
+def run_N4(ctx, case):
+    """randomx_soft_aesenc / randomx_soft_aesdec of jit_compiler_a64_static.S under the A64 model: v0 := one FIPS-197 (inverse) round of v0 with round key v1
+    (the AESENC / AESDEC data flow); table loads summarised by A1 (tables == FIPS columns) over the S-box as an uninterpreted function"""
+    from lemmas import aes as AES
+    inv = case == 'dec'; q = Q(60); syms, text = a64_linked(ctx['tag'] + '-n4-%d' % os.getpid())
+    modA = Module(ctx['ll']['soft_aes']); it0 = Interp(modA); tn = 'randomx_aes_lut_dec' if inv else 'randomx_aes_lut_enc'
+    forms = AES.table_forms(Q(60), AES.table_from_ir(it0, tn), inv, tn)
+    if any(c is None for r in forms for c in r):
+        q.failed.append(('table form (A1) does not hold', {})); q.sat += 1; q.n += 1; return result('N4', case, q, paths=1)
+    a = syms['randomx_soft_aesdec' if inv else 'randomx_soft_aesenc']
+    mem = Mem(); mem.alloc(len(text), 'code')
+    for k, b in enumerate(text): mem.objs['code']['bytes'][k] = b
+    mem.alloc(4096, 'lut'); mem.symload['lut'] = AES.lut_handler(None, q, tn, forms, inv); mem.alloc(4096, 'otherlut')
+    m = FrameMachine(mem, 'code'); entry = {r: z3.BitVec('x%d_entry' % r, 64) for r in range(31)}
+    for r in range(31): m.x[r] = entry[r]
+    st = [z3.BitVec('st%d' % i, 64) for i in range(2)]; ky = [z3.BitVec('key%d' % i, 64) for i in range(2)]
+    for r in range(32): m.v[r] = [z3.BitVec('v%d_%d' % (r, l), 64) for l in range(2)]
+    keepv = {r: list(m.v[r]) for r in range(32) if r not in (0, 28)}
+    m.v[0] = list(st); m.v[1] = list(ky); keepv[1] = list(ky)
+    m.x[19] = Ptr('otherlut' if inv else 'lut', 0); m.x[20] = Ptr('lut' if inv else 'otherlut', 0); m.x[30] = Ptr('caller', 0); m.sp = Ptr('stack', 0); m.fpcr = z3.BitVec('fpcr', 64)
+    try: r = m.run(a, max_steps=200)
+    except (Fault, OOB) as e:
+        q.n += 1; q.sat += 1; q.failed.append(('randomx_soft_aes%s does not execute: %s' % (case, e), {})); return result('N4', case, q, paths=1)
+    ok = r[0] == 'ret' and isinstance(r[1], Ptr) and r[1].obj == 'caller'; q.n += 1; q.unsat += ok; q.sat += (not ok)
+    if not ok: q.failed.append(('routine does not return to its caller', {}))
+    got = lanes_to_bytes(m.v[0]); exp = (aes_ref.aesdec if inv else aes_ref.aesenc)(lanes_to_bytes(st), lanes_to_bytes(ky))
+    for i in range(16):
+        g = z3.simplify(bv(got[i], 8) != bv(exp[i], 8))
+        if z3.is_false(g): q.n += 1; q.unsat += 1
+        else: q.check([], g, 'randomx_soft_aes%s (A64 assembly): state byte %d == FIPS-197 %sround' % (case, i, 'inverse ' if inv else ''))
+    bad = sorted(x for x in m.written_x if x > 16); q.n += 1; q.unsat += (not bad); q.sat += bool(bad)
+    if bad: q.failed.append(('routine clobbers registers x%s beyond x0-x16 (which the F/E mix saves)' % bad, {}))
+    badv = [r for r, v0 in keepv.items() if not all((not is_c(a_) and not is_c(b_) and a_.eq(b_)) for a_, b_ in zip(v0, m.v[r]))]; q.n += 1; q.unsat += (not badv); q.sat += bool(badv)
+    if badv: q.failed.append(('routine changes vector registers %s (only v0 and v28 may change)' % badv, {}))
+    for (kd, obj, off, nb) in m.accesses:
+        if obj not in ('lut', 'otherlut', 'code'): q.n += 1; q.sat += 1; q.failed.append(('access to %s' % obj, {}))
+        if obj == 'otherlut': q.n += 1; q.sat += 1; q.failed.append(('routine reads the table of the other direction', {}))
+    extent_checks(q, [], mem, 'randomx_soft_aes%s' % case)
+    return result('N4', case, q, paths=1, detail='%d A64 instructions' % len(m.disasm))
+
+from lemmas.aes import UNITS as _AESU
+UNITS = dict(UNITS); UNITS['soft_aes'] = _AESU['soft_aes']
+LEMMAS['N4'] = dict(jobs=lambda ctx: ['enc', 'dec'], run=run_N4, units=['soft_aes'], a64=True, functions=['assembled runtime: randomx_soft_aesenc, randomx_soft_aesdec', 'randomx_aes_lut_enc/dec (tables, via A1)'],
+    doc='the software-AES round routines of the ARM64 runtime: v0 := FIPS-197 round / inverse round of v0 with round key v1 (AESENC / AESDEC data flow); they read only their own table, clobber only x0-x16, v0, v28',
+    bound='all 2^256 (state, key) pairs per routine', symbolic='state, key, all registers', stubs=['table loads := columns c*S(x) of the S-box (justified by A1 on the real tables of the current tree)'])
